@@ -44,20 +44,27 @@ def run(ctx):
     n += 1
     ctx.check(len(sorts) == 1, R, b, 'single-sort', [c.name for c in sorts], 'expected one sort of the candidates, found %s' % [c.name for c in sorts])
     for c in sorts:
-        for cb in closure_args_of_call(F, b, c):
-            d, f = V.comparator_direction(cb)
-            n += 1
-            ctx.check(d == 'desc' and f == 'rank', R, cb, 'descending-rank', '%s on %s' % (d, f),
-                      'candidates are ordered %s by `%s` (expected decreasing rank: the top-ranked box must be '
-                      'processed first and can never be suppressed)' % (d, f))
+        d, f = V.sort_semantics(F, b, c)
+        n += 1
+        ctx.check(d == 'desc' and f == 'rank', R, b, 'descending-rank', '%s on %s' % (d, f),
+                  'candidates are ordered %s by `%s` (expected decreasing rank: the top-ranked box must be '
+                  'processed first and can never be suppressed)' % (d, f), c.ln)
     cn = ctx.anchor(R, 'utils::nms::Candidate::new')
     if cn is not None:
         e = ExprBuilder(cn).place(0, ())
         m = dict(zip(e.extra['fields'], e.args)) if e.kind == 'agg' else {}
         rk = m.get('rank')
         n += 1
-        ok = rk is not None and rk.kind == 'call' and rk.name.endswith('unwrap_or') and rk.args[0].strip().root == (
-            'param', 2) and rk.args[1].has_field('height') and any(p.root == ('param', 1) for p in rk.args[1].places())
+        # score when present, else the box height: `unwrap_or`, `match`, `if let`, `map_or` ... all reduce to
+        # "reads exactly the score parameter and bbox.height"
+        ok = False
+        if rk is not None:
+            pls = [p for p in rk.places() if p.root[0] == 'param']
+            score_pl = [p for p in pls if p.root == ('param', 2)]
+            height_pl = [p for p in pls if p.root == ('param', 1) and p.fields[-1:] == ('height',)]
+            other = [p for p in pls if p not in score_pl and p not in height_pl]
+            arith = [x for x in rk.walk() if x.kind in ('bin', 'un')]
+            ok = bool(score_pl) and bool(height_pl) and not other and not arith
         ctx.check(ok, R, cn, 'rank=score-or-height', repr(rk), 'rank is %r (expected score.unwrap_or(bbox.height))' % rk)
         n += 1
         okb = m.get('bbox') is not None and m['bbox'].strip().root == ('param', 1) and m['index'].strip().root == ('param', 3)
@@ -92,8 +99,10 @@ def run(ctx):
             ctx.fail(R, b, 'suppress-iff-fraction>threshold', 'insertion into the excluded set is not guarded by a '
                      'comparison with nms_threshold', c.ln)
     # score / validity filter: the closure of the first `filter` over detections
-    flt = [c for c in b.find_calls('std::iter::Iterator::filter') if eb.arg(c, 0).has_place(root=('param', 1)) and
-           not eb.arg(c, 0).has_call('sorted_by') and not eb.arg(c, 0).has_call('map')]
+    from lib import necessary_keep_facts
+    flt = [c for c in b.find_calls('std::iter::Iterator::filter', 'std::iter::Iterator::filter_map')
+           if eb.arg(c, 0).has_place(root=('param', 1)) and not any(
+               eb.arg(c, 0).has_call(x) for x in ('sorted_by', 'sort_by', 'map', 'sorted_by_key', 'enumerate'))]
     n += 1
     ctx.check(len(flt) == 1, R, b, 'score-filter-before-ranking', '', 'the score / validity filter is not applied '
               'directly to the input detections before candidates are ranked (%d such filters)' % len(flt))
@@ -101,19 +110,13 @@ def run(ctx):
     for c in flt:
         for cb in closure_args_of_call(F, b, c):
             ctx.read(cb)
-            facts = []
-            for bb, knd, payload in result_assignments(cb):
-                if knd == 'const' and payload is False:
-                    continue
-                for k in path_conditions(cb, bb):
-                    if k.cmp():
-                        facts.append(k.cmp())
-                if knd == 'expr' and as_cmp(payload, True):
-                    facts.append(as_cmp(payload, True))
+            kf, _pay = necessary_keep_facts(cb)
+            facts = [v for v in kf.values() if v[0] not in ('bool', 'discr')]
             score_ok = h_ok = a_ok = False
             for cm in facts:
-                l, r = cm[1], cm[2]
-                if l.has_call('unwrap_or') and cm[0] == 'Gt':
+                o = orient(cm, lambda e: e.has_call('unwrap_or'))
+                if o and o[0] == 'Gt':
+                    l, r = o[1], o[2]
                     uo = l.calls('unwrap_or')[0]
                     dflt = uo.args[1]
                     thr = r.strip()
@@ -124,12 +127,13 @@ def run(ctx):
                         thr_exprs.append(pe)
                     score_ok = thr_ok and dflt.kind == 'const' and 'MAX' in (dflt.const.get('item') or repr(dflt)) and \
                         uo.args[0].strip().fields[-1:] == ('1',)
-                if l.strip().kind == 'place' and l.strip().fields[-1:] == ('height',) and cm[0] == 'Gt' and \
-                        r.kind == 'const' and r.const_value() in ('0.0', '0'):
-                    h_ok = True
-                if l.strip().kind == 'place' and l.strip().fields[-1:] == ('aspect',) and cm[0] == 'Gt' and \
-                        r.kind == 'const' and r.const_value() in ('0.0', '0'):
-                    a_ok = True
+                for fld in ('height', 'aspect'):
+                    o = orient(cm, lambda e: e.strip().kind == 'place' and e.strip().fields[-1:] == (fld,))
+                    if o and o[0] == 'Gt' and o[2].kind == 'const' and o[2].const_value() in ('0.0', '0'):
+                        if fld == 'height':
+                            h_ok = True
+                        else:
+                            a_ok = True
             n += 3
             ctx.check(score_ok, R, cb, 'kept-iff-score>threshold(missing-score-passes)', '',
                       'the score filter is not `score.unwrap_or(f32::MAX) > score_threshold` on the detection score '
@@ -216,32 +220,45 @@ def run(ctx):
     oko = bool(outer_checks) and bool(idx) and all(b.dominates(outer_checks[0].bb, c.bb) for c in idx)
     ctx.check(oko, R, b, 'excluded-outer-box-is-skipped', '', 'an excluded box is not skipped before it is used as a '
               'suppressor')
-    # final filter
+    # final stage: keeps exactly the candidates whose id is not excluded; the kept element is its `bbox`
+    final_ok = False
+    result_bbox = False
     for cb in closures:
-        if cb.locals[0] == 'bool' and cb.find_calls('std::collections::HashSet::contains') and cb.npath.startswith(NMS):
-            paths = eval_bool_paths(cb)
-            ebc = ExprBuilder(cb)
-            cc = cb.find_calls('std::collections::HashSet::contains')[0]
-            a = ebc.arg(cc, 1)
-            n += 1
-            e = ebc.place(0, ())
-            neg = e.kind == 'un' and e.name == 'Not'
-            ctx.check(a.has_field('index') and neg, R, cb, 'result-keeps-not-excluded(candidate-id)', repr(e)[:80],
-                      'the final filter is %r (expected !excluded.contains(candidate id))' % e)
+        if not cb.find_calls('std::collections::HashSet::contains') or not cb.npath.startswith(NMS):
+            continue
+        if cb.locals[0] != 'bool' and 'Option' not in cb.locals[0]:
+            continue
+        kf, pay = necessary_keep_facts(cb)
+        neg = [v for v in kf.values() if v[0] == 'bool' and v[1] is False and v[2].kind == 'call' and
+               v[2].name.endswith('contains') and v[2].args[-1].has_field('index')]
+        pos = [v for v in kf.values() if v[0] == 'bool' and v[1] is True and v[2].kind == 'call' and
+               v[2].name.endswith('contains')]
+        n += 1
+        final_ok = True
+        ctx.check(bool(neg) and not pos, R, cb, 'result-keeps-not-excluded(candidate-id)', str(list(kf))[:100],
+                  'the final filter keeps an element under %s (expected !excluded.contains(candidate id))' % list(kf))
+        if pay:
+            result_bbox = all(p is not None and p.strip().kind == 'place' and p.strip().fields[-1:] == ('bbox',)
+                              for p in pay)
+    if not final_ok:
+        n += 1
+        ctx.fail(R, b, 'result-keeps-not-excluded(candidate-id)', 'ANCHOR-MISSING: no final stage that filters the '
+                 'candidates by the excluded set')
     ctx.floor(R, n, 8)
     # ---------------- R14.4 result = bbox of surviving candidates
     R = 'R14.4'
     ctx.rule(R, 'result elements are the `bbox` references of surviving candidates (subset of the input)')
     ret = eb.place(0, ())
-    ok = ret.has_call('collect') and ret.has_call('map') and ret.has_call('filter')
-    mp = [c for c in b.find_calls('std::iter::Iterator::map') if eb.arg(c, 0).has_call('filter') and eb.arg(c, 0).has_call('into_iter')]
-    okm = False
-    for c in mp:
-        for cb in closure_args_of_call(F, b, c):
-            e = ExprBuilder(cb).place(0, ()).strip()
-            okm = e.kind == 'place' and e.fields[-1:] == ('bbox',)
-    ctx.check(ok and okm, R, b, 'result=map(bbox)', '', 'the result is not the bbox references of the candidates that '
-              'were not excluded')
+    ok = ret.has_call('collect') and (ret.has_call('filter_map') or (ret.has_call('map') and ret.has_call('filter')))
+    if not result_bbox:
+        mp = [c for c in b.find_calls('std::iter::Iterator::map') if eb.arg(c, 0).has_call('filter') and
+              eb.arg(c, 0).has_call('into_iter')]
+        for c in mp:
+            for cb in closure_args_of_call(F, b, c):
+                e = ExprBuilder(cb).place(0, ()).strip()
+                result_bbox = e.kind == 'place' and e.fields[-1:] == ('bbox',)
+    ctx.check(ok and result_bbox, R, b, 'result=map(bbox)', '', 'the result is not the bbox references of the '
+              'candidates that were not excluded')
     # ---------------- R14.5 clone drops the vertex cache
     R = 'R14.5'
     ctx.rule(R, 'Universal2DBox::clone never carries the vertex cache')
